@@ -3110,6 +3110,37 @@ def stale_memo(sm, new_locs):
             if not from_value and re.fullmatch(r"\s*(True|False|None|-?\d+|'[^']*'|b'[^']*')\s*", v.split(" = ", 1)[-1] if " = " in v else v):
                 # a flag: what it records is the condition under which it is set
                 computed_from |= state_reads(fmt_formula(it.cond) if it.cond not in (True, False) else "", {loc})
+        # what is kept may also depend on an ARGUMENT of the call that filled it: then the slot (or its key) has to say which
+        fn_ = getattr(getattr(sm, "w", None), "node", None)
+        params = []
+        if isinstance(fn_, (ast.FunctionDef, ast.AsyncFunctionDef)):
+            params = [a.arg for a in fn_.args.posonlyargs + fn_.args.args + fn_.args.kwonlyargs if a.arg not in ("self", "cls", "class_")]
+        arg_dep = set()
+        for it in stores:
+            head = it.head.split(" in loop")[0].split(" after ")[0]
+            if " = " in head and not head.startswith("call "):
+                tgt_, val_ = head.split(" = ", 1)
+                for p_ in params:
+                    if re.search(r"(?<![\w.])%s\b" % re.escape(p_), val_) and not re.search(r"(?<![\w.])%s\b" % re.escape(p_), tgt_):
+                        arg_dep.add(p_)
+        if arg_dep:
+            miss_ = f_or(*[it.cond for it in stores])
+            for it in sm.items:
+                if it.kind != "exit" or not it.head.startswith("return ") or not mentions(it.head):
+                    continue
+                hit_ = f_and(it.cond, f_not(miss_)) if miss_ not in (True, False) else it.cond
+                if hit_ is False or not _sat_formula(hit_):
+                    continue
+                atoms_ = [a for a in (gi.f_opaques(hit_) if hit_ not in (True, False) else []) if isinstance(a, str)]
+                for p_ in sorted(arg_dep):
+                    if not any(re.search(r"(?<![\w.])%s\b" % re.escape(p_), a) for a in atoms_) and not re.search(r"(?<![\w.])%s\b" % re.escape(p_), it.head):
+                        out.append("what is kept in %s was computed from the argument `%s` of the call that filled it, and it is handed out again (`%s`) whatever `%s` is this time: one slot for every value of the argument"
+                                   % (loc, p_, it.head[:40], p_))
+                        break
+                if out:
+                    break
+            if out:
+                continue
         if not computed_from:
             continue
         miss = f_or(*[it.cond for it in stores])         # the paths on which the memo is (re)filled
